@@ -396,11 +396,13 @@ def h_sorted(c, n, gap):
     style = c.pick("style", ["plain", "blanks_tabs", "crlf"])
     sep = {"plain": " ", "blanks_tabs": "\t", "crlf": " "}[style]
     end = "\r\n" if style == "crlf" else "\n"
-    text = "# header\n" + "".join(sep.join([str(ids[i]), "3", f"{i}.5", "0", "0", "1", str(pids[i])]) + end for i in range(n))
+    text = "# header\n" + "".join(sep.join([str(ids[i]), "3", f"{i}.5", "0", "0", "1", str(pids[i]), f"{7 * i + 2}.25"]) + end for i in range(n))
     with warnings.catch_warnings():
         warnings.simplefilter("ignore")
-        df, _ = read_swc(io.StringIO(text), sort_nodes=True)
+        df, _ = read_swc(io.StringIO(text), sort_nodes=True, extra_cols=["w"])
         t = Tree.from_swc(io.BytesIO(text.encode()), sort_nodes=True)
+    # every field of a row, requested extra columns included, travels with its row
+    c.prove("sorted.frame.extra_column_follows_its_row", len(df) == n and all(float(df["w"][j]) == 7 * int(float(df["x"][j])) + 2.25 for j in range(len(df))), f"{list(df['x'])} / {list(df['w'])}")
     for tag, ids_o, pids_o, xs in (("frame", list(df["id"]), list(df["pid"]), list(df["x"])), ("tree", list(t.id()), list(t.pid()), list(t.x()))):
         c.prove(f"sorted.{tag}.count", len(ids_o) == n)
         if len(ids_o) != n:
